@@ -194,6 +194,12 @@ func (w *KeyWrapper) DeriveKey(opts any) (cek, encryptedCEK []byte, err error) {
 		return nil, nil, err
 	}
 
+	if w.alg.name == "" {
+		// Direct Key Agreement: the agreed upon key is the CEK
+		// and the JWE Encrypted Key is the empty octet sequence.
+		return key, []byte{}, nil
+	}
+
 	cek = make([]byte, cekSize)
 	if _, err := rand.Read(cek); err != nil {
 		return nil, nil, err
